@@ -15,11 +15,17 @@ type c08 struct {
 	ev   []string
 	keys int
 	st   *Stats
+	lg   lgTrack
 }
 
-func c08size(varSize bool) func(int) int64 {
-	if varSize {
+// c08size: the size function of a mode: "unit" none (every value has size 1), "var" v%5, "wide" v%200 (the
+// large cases: one Put can evict a burst of entries).
+func c08size(mode string) func(int) int64 {
+	switch mode {
+	case "var":
 		return func(v int) int64 { return int64(v % 5) }
+	case "wide":
+		return func(v int) int64 { return int64(v % 200) }
 	}
 	return nil
 }
@@ -31,6 +37,7 @@ func (r *c08) obs(res string) string {
 			present = append(present, k)
 		}
 	}
+	r.lg.see(r.st, "cache", r.c.Len())
 	s := fmt.Sprintf("r=%s;len=%d;size=%d;keys=%s;ev=[%s]", res, r.c.Len(), r.c.Size(), fmtInts(present), strings.Join(r.ev, " "))
 	r.ev = r.ev[:0]
 	return s
@@ -41,12 +48,13 @@ func (r *c08) Exec(op []string) string {
 	case "reset":
 		limit := atoi(op[1])
 		cfg := cache.LRU[int, int]().OnEvict(func(k, v int) { r.ev = append(r.ev, fmt.Sprintf("%d:%d", k, v)) })
-		if sz := c08size(op[2] == "var"); sz != nil {
+		if sz := c08size(op[2]); sz != nil {
 			cfg = cfg.WithSize(sz)
 		}
 		r.c = cache.New(int64(limit), cfg)
 		r.keys = atoi(op[3])
 		r.ev = r.ev[:0]
+		r.lg.reset()
 		return r.obs("-")
 	case "put":
 		before := r.c.Len()
@@ -62,6 +70,12 @@ func (r *c08) Exec(op []string) string {
 		if len(r.ev) > 0 && before >= 16 {
 			r.st.Note("put-evicts-at-len>=16")
 		}
+		if cl := c10sizeClass(before); cl != "" && len(r.ev) > 0 {
+			r.st.Note("cache-put-evicts-at-len" + cl)
+		}
+		if cl := c10sizeClass(len(r.ev)); cl != "" {
+			r.st.Note("cache-put-evicts-burst" + cl)
+		}
 		return r.obs(fmtBool(ok))
 	case "get":
 		v, ok := r.c.Get(atoi(op[1]))
@@ -69,6 +83,9 @@ func (r *c08) Exec(op []string) string {
 			r.st.Note("get-hit")
 			if r.c.Len() >= 16 {
 				r.st.Note("get-hit-at-len>=16")
+			}
+			if cl := c10sizeClass(r.c.Len()); cl != "" {
+				r.st.Note("cache-get-hit-at-len" + cl)
 			}
 		}
 		return r.obs(fmtPop(v, ok))
@@ -82,9 +99,15 @@ func (r *c08) Exec(op []string) string {
 			if before >= 16 {
 				r.st.Note("remove-hit-at-len>=16")
 			}
+			if cl := c10sizeClass(before); cl != "" {
+				r.st.Note("cache-remove-hit-at-len" + cl)
+			}
 		}
 		return r.obs(fmtBool(ok))
 	case "clear":
+		if cl := c10sizeClass(r.c.Len()); cl != "" {
+			r.st.Note("cache-clear-at-len" + cl)
+		}
 		r.c.Clear()
 		r.st.Note("clear")
 		return r.obs("-")
@@ -96,7 +119,148 @@ func (r *c08) Exec(op []string) string {
 	return "bad-op"
 }
 
+// genC08Large: caches with limit 130..300 (up to 1025 in thorough): filled past 128/256 live entries, hit at
+// large Len, overflowed one eviction at a time, values replaced, evicting bursts (mode "wide": one Put of size
+// ~limit/2 evicts half the cache; mode "var": size-4 values into a cache full of size-1 values), drained by
+// Remove below a quarter of the limit, refilled (the heap and index of the LRU store are reused), cleared while
+// large, filled again; and hits at KNOWN offsets of a large heap followed by bursts that evict everything.
+func genC08Large(g *G) {
+	type lc struct {
+		limit int
+		mode  string
+	}
+	cs := []lc{{130, "unit"}, {260, "wide"}, {70, "var"}}
+	if g.Thorough() {
+		cs = append(cs, lc{129, "wide"}, lc{257, "unit"}, lc{300, "var"}, lc{513, "unit"}, lc{520, "wide"}, lc{1025, "unit"}, lc{64, "unit"}, lc{65, "wide"})
+	}
+	for _, c := range cs {
+		L := c.limit
+		keys := L + L/4 + 2
+		mod := map[string]int{"unit": 5, "var": 5, "wide": 200}[c.mode]
+		ops := []string{fmt.Sprintf("reset %d %s %d", L, c.mode, keys)}
+		val := 1
+		// put key k with a fresh value whose size (in the size modes) is sz
+		put := func(k, sz int) {
+			ops = append(ops, fmt.Sprintf("put %d %d", k, val*mod+sz))
+			val++
+		}
+		// fill with size-1 values, in a random order of the keys
+		perm := g.R.Perm(L)
+		for _, k := range perm {
+			put(k, 1)
+		}
+		ops = append(ops, "len", "size")
+		// hits at large Len (the recency order is no longer the insertion order), misses
+		for i := 0; i < L/8+4; i++ {
+			ops = append(ops, fmt.Sprintf("get %d", g.Intn(keys)))
+		}
+		// overflow: every new key evicts one entry
+		for k := L; k < keys; k++ {
+			put(k, 1)
+		}
+		// replace the values of present keys, remove a few, hit again
+		for i := 0; i < 8; i++ {
+			put(g.Intn(keys), 1)
+			ops = append(ops, fmt.Sprintf("remove %d", g.Intn(keys)), fmt.Sprintf("get %d", g.Intn(keys)))
+		}
+		// churn while full: hits, misses, puts that evict, removes, in random order
+		for i := 0; i < L; i++ {
+			k := g.Intn(keys)
+			switch x := g.Intn(100); {
+			case x < 40:
+				ops = append(ops, fmt.Sprintf("get %d", k))
+			case x < 75:
+				put(k, 1)
+			case x < 90:
+				ops = append(ops, fmt.Sprintf("remove %d", k))
+			default:
+				ops = append(ops, fmt.Sprintf("has %d", k))
+			}
+		}
+		// evicting bursts
+		switch c.mode {
+		case "wide":
+			put(g.Intn(keys), min(L/2, 199))
+			put(g.Intn(keys), 0)
+			put(g.Intn(keys), min(L/3, 150))
+			put(g.Intn(keys), 199) // refused when the limit is below 199
+		case "var":
+			for i := 0; i < 8; i++ {
+				put(g.Intn(keys), 4)
+			}
+			put(g.Intn(keys), 0)
+		}
+		// refill half of the key range, then drain by Remove below a quarter of the limit, one key at a time
+		for _, k := range g.R.Perm(keys)[:keys/2] {
+			put(k, 1)
+		}
+		drain := g.R.Perm(keys)
+		for _, k := range drain[:keys-L/8] {
+			ops = append(ops, fmt.Sprintf("remove %d", k))
+		}
+		ops = append(ops, "len", "size")
+		// carry-over: the drained cache is filled past its limit again, cleared while large, and used again
+		for _, k := range g.R.Perm(keys) {
+			put(k, 1)
+		}
+		for i := 0; i < 6; i++ {
+			ops = append(ops, fmt.Sprintf("get %d", g.Intn(keys)))
+		}
+		ops = append(ops, "clear", "len", "size")
+		for _, k := range g.R.Perm(keys)[:40] {
+			put(k, 1)
+			if g.Chance(1, 3) {
+				ops = append(ops, fmt.Sprintf("get %d", g.Intn(keys)))
+			}
+		}
+		ops = append(ops, "clear")
+		g.Each(ops)
+	}
+	// Known heap layout.  After a fill in ascending key order the heap array under the LRU store IS the insertion
+	// order (every new entry is the newest and stays in the last slot), so the generator knows which key sits at
+	// which offset: Remove of a middle key moves the newest entry into the hole and leaves the SECOND newest in the
+	// last slot; a Get of that key, of the root (key 0) or of a leaf is a hit at a known offset of a large heap.
+	// Bursts then evict everything, and the eviction log shows the complete recency order.
+	ks := []int{190, 131}
+	if g.Thorough() {
+		ks = append(ks, 129, 150, 199, 260, 300, 520)
+	}
+	for i, L := range ks {
+		keys := L + 12
+		ops := []string{fmt.Sprintf("reset %d wide %d", L, keys)}
+		val := 1
+		put := func(k, sz int) {
+			ops = append(ops, fmt.Sprintf("put %d %d", k, val*200+sz))
+			val++
+		}
+		for k := 0; k < L; k++ {
+			put(k, 1)
+		}
+		ops = append(ops, fmt.Sprintf("remove %d", L/2+g.Intn(5)))
+		switch (i + g.Intn(3)) % 3 {
+		case 0:
+			ops = append(ops, fmt.Sprintf("get %d", L-2)) // the last slot, not the newest
+		case 1:
+			ops = append(ops, fmt.Sprintf("get %d", L-2), "get 0") // … and the root
+		default:
+			ops = append(ops, fmt.Sprintf("get %d", L-2), fmt.Sprintf("get %d", L-3), "get 1") // … the new last slot, an inner node
+		}
+		next := L
+		for b := 0; b < L/199+2; b++ {
+			put(next, min(199, L-2))
+			next++
+			for j := 0; j < 3; j++ {
+				put(next, 1)
+				next++
+			}
+		}
+		ops = append(ops, "clear")
+		g.Each(ops)
+	}
+}
+
 func genC08(g *G) {
+	genC08Large(g)
 	cases := g.Scale(500, 12000)
 	maxOps := g.Scale(100, 400)
 	for c := 0; c < cases; c++ {
